@@ -809,6 +809,16 @@ func NextIO() int64 {
 	return i
 }
 
+// PeekIO returns the index the next I/O call will get.
+//
+//go:norace
+func PeekIO() int64 {
+	if r := run; r != nil {
+		return r.ioIndex
+	}
+	return 0
+}
+
 // WaitFlag blocks until *f != 0. f must only be written through SetFlag.
 //
 //go:norace
